@@ -376,7 +376,7 @@ class Seams:
         order = self._permute(list(by_name.keys()), self.rel(path))
         return _ScandirProxy([by_name[n] for n in order])
 
-    def _fake_subprocess_run(self, run_args: typing.List[str], check: bool = True, **kw: typing.Any) -> typing.Any:
+    def _fake_subprocess_run(self, run_args: typing.List[str], check: bool = False, **kw: typing.Any) -> typing.Any:
         import subprocess
 
         n = self.extprog_calls
@@ -390,9 +390,19 @@ class Seams:
         flt = self.fault
         if flt is not None and not self.fault_fired and flt["kind"] == "extprog_fail" and flt["at"] == n:
             self.fire("extprog_fail call=%d" % n)
+            code = 1
+            if flt.get("how") == "killed":
+                # the program dies of a signal (OOM killer, a crash) after it rewrote half of the file: negative return code
+                code = -9
+                try:
+                    size = os.path.getsize(targets[-1])
+                    with open(targets[-1], "r+", encoding="utf-8", newline="") as f:
+                        f.truncate(size // 2)
+                except OSError:
+                    pass
             if check:
-                raise subprocess.CalledProcessError(1, run_args)
-            return subprocess.CompletedProcess(run_args, 1)
+                raise subprocess.CalledProcessError(code, run_args)
+            return subprocess.CompletedProcess(run_args, code, stdout=b"", stderr=b"")
         for target in targets:
             with open(target, "r", encoding="utf-8", newline="") as f:
                 text = f.read()
@@ -413,7 +423,7 @@ class Seams:
             else:
                 with open(target, "w", encoding="utf-8", newline="") as f:
                     f.write(text)
-        return subprocess.CompletedProcess(run_args, 0)
+        return subprocess.CompletedProcess(run_args, 0, stdout=b"", stderr=b"")
 
     # ------------------------------------------------------------------ install
     def install(self) -> None:
